@@ -64,6 +64,8 @@ ASSUMPTIONS = [
     'a value within range must not raise Overflow',
     'reading: one unit in the last binary place is taken in the binade of the stored value, or of the decimal '
     'value if that lies in the next binade (the weaker bound)',
+    'a % sigil is not part of a numeral for the INPUT flavour of from_repr (it is for VAL, where it ends the '
+    'number, and for program literals, where the tokeniser swallows it)',
     'type by digit count: more than 7 significant digits (not counting trailing zeros of the fraction) -> double; '
     'at most 7 (counting them) -> single; in between, and for E-exponent literals with more than 7 digits, either '
     'type is accepted; integer text with embedded blanks may become Integer or Single',
@@ -478,7 +480,10 @@ def expected_types(nm):
         # no point, no exponent: an integer if it fits (the % sigil is then redundant)
         v = -nm.dint if nm.neg else nm.dint
         if -32768 <= v <= 32767:
-            return {'%', '!'} if nm.blanks else {'%'}
+            # pure digit strings are integer constants; with a sign, a % sigil or blanks in the text the
+            # conversion may go through the float reader (same value): the statement only separates ! from #
+            pure = not nm.blanks and not nm.signed and nm.sigil is None
+            return {'%'} if pure else {'%', '!'}
     # a % sigil on something that is not a 16-bit integer text: not described; value rule only
     types = set()
     if nm.sig_min > 7:
@@ -553,8 +558,9 @@ def check_read(part, text, got, flavour, case):
     if man == 0:
         if nm.dint == 0:
             c = 0
-        elif D.decimal_cmp_pow2(nm, -128) < 0:
-            c = 0           # underflow accepted (ASSUMPTIONS)
+        elif D.decimal_cmp_frac(nm, (1 << 23) + 1, 1 << 151) < 0:
+            # below the smallest positive number plus one (single) ulp: underflow accepted (ASSUMPTIONS)
+            c = 0
             part.classes.add('r:%s:%s:underflow' % (shape, tname))
         else:
             part.violation('parse/%s/%s/nonzero-read-as-zero/%s' % (flavour, tname, shape),
@@ -569,7 +575,11 @@ def check_read(part, text, got, flavour, case):
             return
         c = D.read_error(nm, man, t, nbits)
         if c == 2:
-            part.violation('parse/%s/%s/off-by-an-ulp-or-more/%s/%s' % (flavour, tname, shape, _xband(nm)),
+            wide = 'digit-string-exceeds-%d-bits' % nbits if nm.dint >= (1 << nbits) else 'digit-string-fits'
+            key = 'parse/%s/%s/off-by-an-ulp-or-more/%s' % (flavour, tname, wide)
+            if nm.dint < (1 << nbits):
+                key += '/%s/%s' % (shape, _xband(nm))
+            part.violation(key,
                            'reading %r gives %s (= %s): differs from the decimal value by one unit in the last binary '
                            'place or more' % (text, b.hex(), _approx(neg, man, t)), case)
     part.classes.add('r:%s:%s:%s:%s' % (shape, tname, _xband(nm), ('half', 'ulp', 'BAD')[c]))
@@ -614,6 +624,8 @@ def work_parse(shard):
     for text in gen_parse_texts(tier, lo, hi):
         tb = text.encode('ascii')
         for flavour, allow in (('val', True), ('input', False)):
+            if not allow and tb.endswith(b'%'):
+                continue        # a % is not part of a numeral for INPUT (ASSUMPTIONS)
             case = {'text': tb, 'flavour': flavour}
             try:
                 got = _call_from_repr(vals, tb, allow)
@@ -664,11 +676,12 @@ def work_literal(shard):
                 part.n += 1
                 part.violation('parse/literal/host-exception/%s' % H.exc_key(r.exc), 'tokenising %r: %r' % (body, r.exc), case)
                 continue
-            if r.err is not None:
-                got = ('err', r.err)
+            if r.err is not None or error.OVERFLOW in r.soft:
+                # overflow while tokenising is a soft error: message, and the largest number is stored
+                got = ('err', r.err if r.err is not None else error.OVERFLOW)
                 check_read(part, body, got, 'literal', case)
                 continue
-            rest = _literal_from_program(s)
+            rest = _literal_from_program(s).lstrip(b' ')
             lead = rest[0]
             if lead in _TOKLEN:
                 tok = rest[:1 + _TOKLEN[lead]]
@@ -681,7 +694,7 @@ def work_literal(shard):
                 part.violation('parse/literal/no-number-token', 'tokenising %r gives %r' % (body, rest[:12]), case)
                 continue
             # the literal must be consumed completely (only a swallowed % / end of line may follow)
-            if after[:1] not in (b'\0', b'%'):
+            if after.lstrip(b' ')[:1] not in (b'\0', b'%'):
                 part.n += 1
                 part.violation('parse/literal/not-consumed/%s' % _shape(D.parse_numeral(body)),
                                'tokenising %r leaves %r behind the number token' % (body, after[:8]), case)
@@ -758,19 +771,24 @@ def work_stmt(shard):
                 if len(b) > 2:
                     for txt, fl in ((lines[0].rstrip(b' '), 'print'), (lines[2], 'write')):
                         _check_text_against(part, txt, b, 'stmt-' + fl, case)
-                # LIST flavour: put the value into a program line as a token
+                # LIST flavour: a program line holding a float token; the listing must be to_str(False, True)
+                # of the value *in the token* (whatever the tokeniser made of the text)
                 if len(b) > 2 and not (b[-2] & 0x80) and b[-1] != 0:
-                    tok = vobj.to_token()
-                    want_l = bytes(vobj.to_str(False, True))
-                    H.run(s, b'1 X=' + want_l)
-                    r2 = H.run(s, b'LIST')
-                    part.traces += 1
-                    part.n += 1
-                    m = re.match(rb'^1 X=(\S+)\s*$', r2.out.split(b'\r\n')[0])
-                    if r2.exc is not None or not m:
-                        part.violation('stmt/list/failed', 'LIST of a line with %r: %r %r' % (want_l, r2.out, r2.exc), case)
-                    else:
-                        _check_text_against(part, m.group(1), None, 'stmt-list', case, reread_of=want_l)
+                    text_in = bytes(vobj.to_str(False, True))
+                    H.run(s, b'1 X#=' + text_in)
+                    rest = _literal_from_program(s).lstrip(b' ')
+                    if rest[0] in (0x1d, 0x1f):
+                        tokval = vals.from_token(rest[:1 + _TOKLEN[rest[0]]])
+                        want_l = bytes(tokval.to_str(False, True))
+                        r2 = H.run(s, b'LIST')
+                        part.traces += 1
+                        part.n += 1
+                        m = re.match(rb'^1 X#=(\S+)\s*$', r2.out.split(b'\r\n')[0])
+                        if r2.exc is not None or not m or m.group(1) != want_l:
+                            part.violation('stmt/list/seam-mismatch', 'LIST of a line with token %s: %r, to_str gives %r' % (
+                                bytes(tokval.to_bytes()).hex(), r2.out, want_l), case)
+                        else:
+                            _check_text_against(part, m.group(1), bytes(tokval.to_bytes()), 'stmt-list', case)
                 part.classes.add('stmt:print:%d' % len(b))
         else:
             allt = _stmt_texts()
@@ -792,6 +810,8 @@ def work_stmt(shard):
                         text, r.err, r.exc, got.hex(), want), case)
                 elif wantd is not None:
                     check_read(part, text, ('ok', vals.from_bytes(wantd)) if False else want, 'stmt-val', case)
+                if text.endswith(b'%'):
+                    continue    # READ / INPUT lex a % differently from VAL (ASSUMPTIONS)
                 # READ from DATA (INPUT flavour of from_repr)
                 want2 = _call_from_repr(vals, text, False)
                 H.run(s, b'NEW')
@@ -830,12 +850,8 @@ def work_stmt(shard):
     return part
 
 
-def _check_text_against(part, txt, b, leg, case, reread_of=None):
+def _check_text_against(part, txt, b, leg, case):
     """Statement-level text against the stored value (same clauses as check_shown, one flavour)."""
-    if reread_of is not None:
-        if txt != reread_of:
-            part.violation('stmt/list/changed-text', 'line entered with %r lists as %r' % (reread_of, txt), case)
-        return
     sh = D.parse_shown(txt)
     neg, man, t, nbits = D.mbf_triple(b)
     if sh is None:
